@@ -124,8 +124,19 @@ class ScriptServer(fakenet.Endpoint):
             return True
         return False
 
+    def _flush_late(self, sock):
+        late = sock.state.pop("late", None)
+        if late:
+            for item in late:
+                sock.rx.append(item)
+
+    def on_idle_recv(self, sock):
+        # the client waits for more of the current response: the part the server sends "late" arrives now
+        self._flush_late(sock)
+
     def on_send(self, sock, data):
         st = sock.state
+        self._flush_late(sock)  # whatever the server was still sending arrives no later than the next request
         if st.get("cur") is None and self._transport(sock, data):
             return
         if st.get("cur") is None:
@@ -204,6 +215,8 @@ class ScriptServer(fakenet.Endpoint):
             hdrs = [(a.encode("latin-1"), b.encode("latin-1")) for a, b in o.get("headers", [])]
             framing = o.get("framing", "cl")
             bodyless = method == b"HEAD" or status in (204, 304) or 100 <= status < 200
+            if bodyless:
+                o = dict(o, late=None)
             if bodyless and not o.get("force_body"):
                 data = fakenet.response_bytes(status, hdrs, body, framing if framing != "close" else "cl", o.get("keep", True))
                 head_end = data.index(b"\r\n\r\n") + 4
@@ -217,11 +230,26 @@ class ScriptServer(fakenet.Endpoint):
                 stray = o.get("stray", "HTTP/1.1 200 OK\r\nContent-Length: 6\r\n\r\nPOISON").encode("latin-1")
             if o.get("pre100"):
                 data = b"HTTP/1.1 100 Continue\r\n\r\n" + data
+            late_at = o.get("late")
+            tail_items = []
+            if late_at is not None:
+                # only the head and the first `late_at` body bytes are sent at once; the rest follows later
+                cut = min(len(data), data.index(b"\r\n\r\n") + 4 + late_at)
+                if o.get("late_marker"):
+                    # cut exactly where the marker starts inside the framed body (whatever the framing bytes before it)
+                    m = data.find(o["late_marker"].encode("latin-1"), data.index(b"\r\n\r\n") + 4)
+                    if m >= 0:
+                        cut = m
+                data, rest = data[:cut], data[cut:]
+                tail_items += fakenet.segment(rest, o.get("seg"))
             self.reply(sock, data, o.get("seg"))
+            sink = tail_items if late_at is not None else rx
             if stray:
-                rx.append(stray)
+                sink.append(stray)
             if framing == "close" or not o.get("keep", True) or then == "eof":
-                rx.append(fakenet.EOF)
+                sink.append(fakenet.EOF)
+            if late_at is not None:
+                sock.state["late"] = tail_items
         elif k == "rtimeout":
             rx.append(fakenet.NEVER)
         elif k == "rreset":
